@@ -261,7 +261,7 @@ class Impl:
     def listing(self):
         s = self.store
         src = self.g[0] if self.k % 2 == 0 else s
-        L = [(p, str(n)) for p, n in src.namespaces()]
+        L = [(p if isinstance(p, str) else repr(p), str(n)) for p, n in src.namespaces()]
         ps = list(dict.fromkeys(self.case["vp"] + [p for p, _ in L]))
         ns = list(dict.fromkeys(self.case["vn"] + [n for _, n in L]))
         sh = lambda x: "~" if x is None else str(x)
@@ -334,6 +334,9 @@ class Impl:
 def _check_bij(im, case, k, viol):
     s = im.store
     L = [(p, str(n)) for p, n in im.g[0].namespaces()]
+    if any(not isinstance(p, str) for p, _ in L):
+        viol.append(f"bij: after step {k} namespaces() lists a prefix that is not a string: {L!r}"[:300])
+        return
     ps, ns = [p for p, _ in L], [n for _, n in L]
     if len(set(ps)) != len(ps):
         viol.append(f"bij: after step {k} namespaces() lists a prefix twice: {sorted(L)}")
